@@ -646,3 +646,187 @@ pub fn respellings(r: &mut Rng, a: &IG) -> Vec<(&'static str, IG)> {
     }
     out
 }
+
+// ------------------------------------------------------------------------------------------------
+// inputs of realistic size (dozens to hundreds of segments) and nodes of high degree: what lives behind size
+// thresholds (bulk-loaded R-trees, sort implementations that switch algorithm with the length, maps keyed by
+// direction with many entries at one node) is not reached by rings of <= 8 vertices
+// ------------------------------------------------------------------------------------------------
+fn primitive_directions(m: i64) -> Vec<IP> {
+    fn gcd(a: i64, b: i64) -> i64 {
+        if b == 0 { a.abs() } else { gcd(b, a % b) }
+    }
+    let mut v: Vec<IP> = vec![];
+    for x in -m..=m {
+        for y in -m..=m {
+            if (x, y) != (0, 0) && gcd(x, y) == 1 {
+                v.push((x, y));
+            }
+        }
+    }
+    // by angle (exact: half-plane, then cross product)
+    let half = |p: &IP| if p.1 > 0 || (p.1 == 0 && p.0 > 0) { 0 } else { 1 };
+    v.sort_by(|a, b| half(a).cmp(&half(b)).then_with(|| (b.0 * a.1 - b.1 * a.0).cmp(&0)));
+    v
+}
+
+pub fn gen_large(r: &mut Rng) -> (IG, &'static str) {
+    match r.below(7) {
+        0 => {
+            // star-shaped polygon: vertices at strictly increasing angles, radius varying between 60 % and 100 %
+            let n = r.range(40, 180) as usize;
+            // (coordinates stay below ~1500: the exact arrangement works in i128 rationals, crossings of longer edges overflow it)
+            let rad = r.range(400, 1200) as f64;
+            let mut ring: Vec<IP> = vec![];
+            for i in 0..n {
+                let a = 2.0 * std::f64::consts::PI * (i as f64) / (n as f64);
+                let rr = rad * (0.6 + 0.4 * r.f01());
+                let p = ((rr * a.cos()).round() as i64, (rr * a.sin()).round() as i64);
+                if ring.last() != Some(&p) {
+                    ring.push(p);
+                }
+            }
+            let f = ring[0];
+            ring.push(f);
+            (IG::Polygon(vec![ring]), "large:star_polygon")
+        }
+        1 => {
+            // a square with a k x k grid of small holes (squares and triangles), some touching their neighbours at a corner
+            let k = r.range(3, 7);
+            let pitch = 10;
+            let w = k * pitch;
+            let mut rings = vec![vec![(0, 0), (w, 0), (w, w), (0, w), (0, 0)]];
+            for i in 0..k {
+                for j in 0..k {
+                    let (x, y) = (i * pitch, j * pitch);
+                    match r.below(4) {
+                        0 => {}
+                        1 => rings.push(vec![(x + 2, y + 2), (x + 2, y + 8), (x + 8, y + 8), (x + 8, y + 2), (x + 2, y + 2)]),
+                        2 => rings.push(vec![(x + 3, y + 3), (x + 5, y + 8), (x + 8, y + 4), (x + 3, y + 3)]),
+                        // reaches the corners of its cell: touches the diagonal neighbours of the same kind in a point
+                        _ if (i + j) % 2 == 0 && i > 0 && j > 0 && i < k - 1 && j < k - 1 => rings.push(vec![(x, y), (x, y + pitch), (x + pitch, y + pitch), (x + pitch, y), (x, y)]),
+                        _ => rings.push(vec![(x + 4, y + 1), (x + 1, y + 5), (x + 4, y + 9), (x + 7, y + 5), (x + 4, y + 1)]),
+                    }
+                }
+            }
+            (IG::Polygon(rings), "large:polygon_with_hole_grid")
+        }
+        2 => {
+            let n = r.range(40, 200);
+            let mut v: Vec<IP> = vec![];
+            for i in 0..n {
+                v.push((10 * i + r.range(0, 6), r.range(-60, 60)));
+            }
+            (IG::LineString(v), "large:zigzag_linestring")
+        }
+        3 => {
+            // checkerboard: members touch their diagonal neighbours in exactly one point (a valid MultiPolygon with many touch points)
+            let m = r.range(4, 9);
+            let s = r.range(2, 6);
+            let mut ms = vec![];
+            for i in 0..m {
+                for j in 0..m {
+                    if (i + j) % 2 == 0 && !r.chance(1, 6) {
+                        let (x, y) = (i * s, j * s);
+                        ms.push(vec![vec![(x, y), (x + s, y), (x + s, y + s), (x, y + s), (x, y)]]);
+                    }
+                }
+            }
+            if ms.is_empty() {
+                ms.push(vec![vec![(0, 0), (s, 0), (s, s), (0, s), (0, 0)]]);
+            }
+            (IG::MultiPolygon(ms), "large:checkerboard_multipolygon")
+        }
+        4 => {
+            // fan of segments: one node of high degree
+            let dirs = primitive_directions(5);
+            let k = r.range(8, 40) as usize;
+            let c = (r.range(-20, 20), r.range(-20, 20));
+            let mut idx: Vec<usize> = (0..dirs.len()).collect();
+            r.shuffle(&mut idx);
+            let ms: Vec<Vec<IP>> = idx[..k.min(dirs.len())].iter().map(|&i| { let m = r.range(1, 9); let far = (c.0 + m * dirs[i].0, c.1 + m * dirs[i].1); if r.chance(1, 2) { vec![c, far] } else { vec![far, c] } }).collect();
+            (IG::MultiLineString(ms), "large:fan_of_segments")
+        }
+        5 => {
+            // fan of thin triangles sharing their apex: a MultiPolygon whose members all touch in one point
+            let dirs = primitive_directions(4);
+            let k = r.range(4, (dirs.len() / 2) as i64 - 1) as usize;
+            let c = (r.range(-20, 20), r.range(-20, 20));
+            let start = r.below(dirs.len() as u64) as usize;
+            let m = r.range(2, 12);
+            let mut ms = vec![];
+            let mut skipped = 0;
+            for j in 0..k {
+                if r.chance(1, 5) && skipped < 3 {
+                    skipped += 1;
+                    continue;
+                }
+                let (d0, d1) = (dirs[(start + 2 * j) % dirs.len()], dirs[(start + 2 * j + 1) % dirs.len()]);
+                if 2 * j + 1 >= dirs.len() {
+                    break;
+                }
+                ms.push(vec![vec![c, (c.0 + m * d0.0, c.1 + m * d0.1), (c.0 + m * d1.0, c.1 + m * d1.1), c]]);
+            }
+            if ms.is_empty() {
+                ms.push(vec![vec![c, (c.0 + m, c.1), (c.0 + m, c.1 + m), c]]);
+            }
+            (IG::MultiPolygon(ms), "large:fan_of_triangles")
+        }
+        _ => {
+            let n = r.range(50, 300);
+            (IG::MultiPoint((0..n).map(|_| (r.range(-200, 200), r.range(-200, 200))).collect()), "large:multipoint")
+        }
+    }
+}
+
+/// a partner for a large operand: itself, a slightly moved copy, a long line across it, a rectangle over a quarter of
+/// it, a coordinate of it, a fan centred at one of its coordinates, or another large shape moved onto it
+pub fn large_partner(r: &mut Rng, a: &IG) -> IG {
+    let cs = a.coords();
+    let (x0, x1) = (cs.iter().map(|p| p.0).min().unwrap_or(0), cs.iter().map(|p| p.0).max().unwrap_or(1));
+    let (y0, y1) = (cs.iter().map(|p| p.1).min().unwrap_or(0), cs.iter().map(|p| p.1).max().unwrap_or(1));
+    let v = if cs.is_empty() { (0, 0) } else { cs[r.below(cs.len() as u64) as usize] };
+    match r.below(8) {
+        0 => a.clone(),
+        1 => a.translate(r.range(-3, 3), r.range(-3, 3)),
+        2 => {
+            let n = r.range(2, 60);
+            let step = ((x1 - x0) / n).max(1);
+            IG::LineString((0..=n).map(|i| (x0 + i * step, if i % 2 == 0 { y0 + (y1 - y0) / 3 } else { y0 + 2 * (y1 - y0) / 3 + r.range(0, 2) })).collect())
+        }
+        3 => IG::Rect((x0, y0), (((x0 + x1) / 2).max(x0 + 1), ((y0 + y1) / 2).max(y0 + 1))),
+        4 => IG::Point(v),
+        5 => {
+            let dirs = primitive_directions(3);
+            let k = r.range(3, 16) as usize;
+            let mut idx: Vec<usize> = (0..dirs.len()).collect();
+            r.shuffle(&mut idx);
+            let m = ((x1 - x0) / 8).max(1);
+            IG::MultiLineString(idx[..k].iter().map(|&i| vec![v, (v.0 + m * dirs[i].0, v.1 + m * dirs[i].1)]).collect())
+        }
+        6 => IG::Line((x0 - 1, v.1), (x1 + 1, v.1)),
+        _ => {
+            let (b, _) = gen_large(r);
+            let bc = b.coords();
+            if bc.is_empty() {
+                return b;
+            }
+            // put one of its coordinates onto one of a's
+            let w = bc[r.below(bc.len() as u64) as usize];
+            b.translate(v.0 - w.0, v.1 - w.1)
+        }
+    }
+}
+
+/// (a, b, class) in random operand order, both inside the relate domain - or None
+pub fn gen_large_pair(r: &mut Rng) -> Option<(IG, IG, &'static str)> {
+    let (a, class) = gen_large(r);
+    if !a.valid() {
+        return None;
+    }
+    let b = large_partner(r, &a);
+    if !b.valid() || a.n_segments() + b.n_segments() > 700 {
+        return None;
+    }
+    Some(if r.chance(1, 2) { (a, b, class) } else { (b, a, class) })
+}
